@@ -83,6 +83,27 @@ theorem run_le_nodes (F : Framework N L) (h : Lawful F)
             exact h.le_trans _ _ _ (h.mono s p n hs) (hp n ha)
           · exact hs n
 
+/-- leastness against states stable on the nodes only, stated for `analyze` -/
+theorem C07_least_on_nodes (F : Framework N L) (h : Lawful F) (hbot : ∀ a, F.le F.bot a = true)
+    (hd : ∀ n ∈ F.nodes, ∀ m ∈ F.deps n, m ∈ F.nodes) (wl : List N) (hwl : ∀ n ∈ wl, n ∈ F.nodes)
+    (p : N → L) (hp : ∀ n ∈ F.nodes, Stable F p n) :
+    ∀ n, F.le (analyze F wl n) (p n) = true :=
+  fun n => run_le_nodes F h hd p hp _ _ wl hwl (fun m => hbot _) n
+
+/-- **The least solution is unique**: a state that is closed under the rules on every node and lies
+below every other such state *is* the analysis result — there is exactly one "least solution of
+the inference rules", and `analyze` computes it (whatever the schedule). -/
+theorem C07_least_solution_unique (F : Framework N L) (h : Lawful F) (hbot : ∀ a, F.le F.bot a = true)
+    (hd : ∀ n ∈ F.nodes, ∀ m ∈ F.deps n, m ∈ F.nodes) (wl : List N)
+    (hwl : ∀ n ∈ wl, n ∈ F.nodes) (hall : ∀ n ∈ F.nodes, n ∈ wl)
+    (p : N → L) (hp : ∀ n ∈ F.nodes, Stable F p n)
+    (hleast : ∀ q : N → L, (∀ n ∈ F.nodes, Stable F q n) → ∀ n, F.le (p n) (q n) = true) :
+    p = analyze F wl := by
+  funext n
+  apply h.le_antisymm
+  · exact hleast _ (C07_stable F h hd wl hwl hall) n
+  · exact C07_least_on_nodes F h hbot hd wl hwl p hp n
+
 /-- **Schedule irrelevance**: any two work-list orders that cover the nodes (LIFO over ascending
 ids, any permutation, any order inside `deps`) produce the same facts.  Hence the facts do not
 depend on the order in which declarations were numbered. -/
